@@ -332,8 +332,6 @@ Proof.
   specialize (H g (in_all_grp g)). repeat (apply andb_true_iff in H; destruct H as [H ?]). apply Nat.leb_le. assumption.
 Qed.
 
-Lemma qtrunc_integer : forall z, qtrunc (inject_Z z) = inject_Z z.
-Proof. intros. unfold qtrunc, inject_Z. cbn [Qnum Qden]. rewrite Z.quot_1_r. reflexivity. Qed.
 
 (* ---- median: sorting two permutations of a list gives pointwise equal (==) lists ---- *)
 Lemma F2_refl : forall l : list Q, Forall2 Qeq l l.
